@@ -14,7 +14,7 @@
    are property C09's subject. To keep the theorems independent of that choice the schedule
    has an event `Havoc sl` that overwrites the counters arbitrarily; no theorem restricts it.
 
-   GHOST state (never read by a transition): the CAS log `clog`, the admission log `admits`,
+   GHOST state (never read by a transition of the real state): the CAS log `clog`, the admission log `admits`,
    `phase` (number of opening CASes so far), `topen` (clock value at the last opening CAS),
    `dtag` (value of `phase` when the deadline was last stored), and the thread-local pair
    (rnow, rtag) carried by pc T302. No proofs in this file. *)
@@ -30,7 +30,7 @@ Inductive cop :=
 | OComplete (rt : Z) (err : bool).   (* OnRequestComplete(rt, err) *)
 
 Inductive pc :=
-| PStart | PBound | PDone
+| PBound | PDone
 | T301 | T303 | T302 (rnow rtag : Z) | T307 (blocked : bool)
 | R302 | R307
 | C301 (bad : bool) (B T : Z) | C301b (B T : Z)
@@ -41,7 +41,7 @@ Inductive pc :=
 
 Definition label (p : pc) : Z :=
   match p with
-  | PStart => 0 | PBound => 300 | PDone => -1
+  | PBound => 300 | PDone => -1
   | T301 | C301 _ _ _ | C301b _ _ => 301
   | T303 => 303
   | T302 _ _ | R302 | CCasCO _ | CCasHO _ | CCasHC => 302
@@ -56,9 +56,12 @@ Inductive ckind := KTry | KRollback | KComplete.
 Record cev := CEv { ce_tid : Z; ce_kind : ckind; ce_from : bst; ce_to : bst; ce_clk : Z }.
 (* a listener call: thread, transition *)
 Record lcall := LCall { lc_tid : Z; lc_ev : tev }.
-(* an admission through Open->HalfOpen: thread, clock at the CAS, GHOST topen at the CAS,
-   GHOST fresh = the deadline this TryPass checked was stored during the current open phase *)
-Record adm := Adm { ad_tid : Z; ad_clk : Z; ad_topen : Z; ad_fresh : bool }.
+(* a TryPass that returns true (GHOST record, appended at the step that decides it): thread,
+   clock at the deciding access, the state word that access saw (Closed / HalfOpen at the load
+   301; Open = this TryPass performed the Open->HalfOpen CAS itself), epoch = length of the CAS
+   log after the step, topen at the step, and fresh = the deadline this TryPass checked (303)
+   was stored during the open phase in which its CAS succeeded (meaningful for ad_seen = Open) *)
+Record adm := Adm { ad_tid : Z; ad_clk : Z; ad_seen : bst; ad_epoch : Z; ad_topen : Z; ad_fresh : bool }.
 
 Record shared := {
   sw    : bst;          (* circuitBreakerBase.state *)
@@ -83,7 +86,9 @@ Definition init_shared (c : cfg) (t0 : Z) : shared :=
   {| sw := Closed; dl := 0; pn := 0; csl := la_init (gn c) (gbl c) t0; llog := []; clog := []; admits := [];
      phase := 0; topen := 0; dtag := -1 |}.
 
-Definition init_thread (ops : list cop) : thread := {| tpc := PStart; tops := ops; tres := [] |}.
+(* a goroutine starts parked in front of its first operation (no operations: finished) *)
+Definition init_thread (ops : list cop) : thread :=
+  {| tpc := match ops with [] => PDone | _ => PBound end; tops := ops; tres := [] |}.
 
 (* field updates *)
 Definition with_pc (th : thread) (p : pc) : thread := {| tpc := p; tops := tops th; tres := tres th |}.
@@ -117,6 +122,8 @@ Definition add_adm (sh : shared) (a : adm) : shared :=
   {| sw := sw sh; dl := dl sh; pn := pn sh; csl := csl sh; llog := llog sh; clog := clog sh;
      admits := admits sh ++ [a]; phase := phase sh; topen := topen sh; dtag := dtag sh |}.
 
+Definition epoch (sh : shared) : Z := Z.of_nat (length (clog sh)).
+
 (* resetMetric at clock value clk *)
 Definition reset_metric (c : cfg) (clk : Z) (sh : shared) : shared :=
   if clk <=? 0 then sh else set_csl sh (la_clear (gn c) (gbl c) clk (csl sh)).
@@ -146,13 +153,15 @@ Definition begin_op (c : cfg) (clk : Z) (sh : shared) (th : thread) : shared * t
 Definition tstep (c : cfg) (tid clk : Z) (sh : shared) (th : thread) : shared * thread :=
   match tpc th with
   | PDone => (sh, th)
-  | PStart => (sh, with_pc th (match tops th with [] => PDone | _ => PBound end))
   | PBound => begin_op c clk sh th
   (* ---- TryPass ---- *)
   | T301 =>
       match sw sh with
-      | Closed => (sh, finish (result th true))
-      | HalfOpen => (sh, finish (result th (0 <? probe_num c)))
+      | Closed => (add_adm sh (Adm tid clk Closed (epoch sh) (topen sh) true), finish (result th true))
+      | HalfOpen =>
+          if 0 <? probe_num c
+          then (add_adm sh (Adm tid clk HalfOpen (epoch sh) (topen sh) true), finish (result th true))
+          else (sh, finish (result th false))
       | Open => (sh, with_pc th T303)
       end
   | T303 =>                                                    (* retryTimeoutArrived *)
@@ -162,7 +171,8 @@ Definition tstep (c : cfg) (tid clk : Z) (sh : shared) (th : thread) : shared * 
       match sw sh with
       | Open =>
           let blocked := match tops th with OTry b :: _ => b | _ => false end in
-          (add_adm (set_sw sh tid KTry Open HalfOpen clk) (Adm tid clk (topen sh) (rtag =? phase sh)),
+          (add_adm (set_sw sh tid KTry Open HalfOpen clk)
+                   (Adm tid clk Open (epoch sh + 1) (topen sh) (rtag =? phase sh)),
            with_pc (result th true) (T307 blocked))
       | _ => (sh, finish (result th false))
       end
